@@ -2,10 +2,18 @@
 //! built with `--cfg oxfordcontrol_clarabel_rs_verif`).  See /verif/DESIGN.md.
 #![allow(non_snake_case, dead_code, unused_imports, clippy::all)]
 
+pub mod fp;
+#[cfg(kani)]
 pub mod gen;
 
+#[cfg(any(feature = "c01", feature = "c02", feature = "c03", feature = "c04"))]
+pub mod verdict;
+#[cfg(feature = "c09")]
+pub mod c09;
 #[cfg(feature = "c12")]
 pub mod c12;
+#[cfg(feature = "probe")]
+pub mod probe;
 #[cfg(feature = "selftest")]
 pub mod selftest;
 
